@@ -219,10 +219,11 @@ def finder_inst(tier):
           ('found_is_list_element', '__CPROVER_ensures((uintptr_t)$ret != 0 ==> ((%s.len >= 1 && (void *)$ret == %s.elem[0]) || (%s.len >= 2 && (void *)$ret == %s.elem[1])))' % (L, L, L, L)),
           ('null_means_none_contains', '__CPROVER_ensures(((uintptr_t)$ret == 0 && g_w < %s.len) ==> !V_IN(%s->base0.slot, (uintptr_t)$0))' % (L, EL % 'g_w')),
           ('frame', '__CPROVER_assigns()')]
-    lc = ('__CPROVER_assigns(__i_range2)\n'
-          '__CPROVER_loop_invariant(__i_range2 <= __range2->len)\n'
-          '__CPROVER_loop_invariant(g_w < __i_range2 ==> !V_IN(((const struct %s *)__range2->elem[g_w])->base0.slot, (uintptr_t)$0))\n'
-          '__CPROVER_decreases(__range2->len - __i_range2)' % SB)
+    # $LV: the loop's index, $LR: the vector it walks - however the walk is spelled (range-for, index loop, std::find_if)
+    lc = ('__CPROVER_assigns($LV)\n'
+          '__CPROVER_loop_invariant($LV <= $LR->len)\n'
+          '__CPROVER_loop_invariant(g_w < $LV ==> !V_IN(((const struct %s *)$LR->elem[g_w])->base0.slot, (uintptr_t)$0))\n'
+          '__CPROVER_decreases($LR->len - $LV)' % SB)
     h = REGIONS + ('  struct %s sbA, sbB; int in_slotA, in_slotB; sbA.base0.slot = in_slotA; sbB.base0.slot = in_slotB;\n'
                    '  __CPROVER_assume((in_slotA == 0 || in_slotA == 1) && (in_slotB == 0 || in_slotB == 1) && V_LIVE(in_slotA) && V_LIVE(in_slotB));\n'
                    '  void *arr[2] = { &sbA, &sbB }; unsigned long in_len; __CPROVER_assume(in_len <= 2);\n'
@@ -262,8 +263,33 @@ def ptr_array_inst(n, tier):
                 note='array of %d pointer cells; loop by loop contract with a ghost witness index' % n)
 
 
+def same_repr_copy_inst(n, tier):
+    """convert_type_non_class<NO_CHANGE> on pointer representations that ARE host pointers (the bundled no-op and dylib backends:
+    T_PointerType = void*): a copy between two cells.  The verification backend's 32-bit representation never reaches these two
+    arms through the public routes, so the dispatcher is instantiated directly.  n == 0: scalar (`to = from`); n > 0: array (memcpy)"""
+    if n == 0:
+        cl = [('objs', '__CPROVER_requires(__CPROVER_rw_ok($0, sizeof(*$0)) && __CPROVER_r_ok($1, sizeof(*$1)))'),
+              ('representation_copied', '__CPROVER_ensures((uintptr_t)*$0 == (uintptr_t)__CPROVER_old(*$1))'),
+              ('frame', '__CPROVER_assigns(*$0)')]
+        h = '  int *to; int *from; uintptr_t in_from; from = (int *)in_from;\n  $ROOT(&to, &from, (const void *)0, (void *)0);\n'
+        params = 'int*& to, int* const& from'
+    else:
+        AT = cs('std::array<int *, %d>' % n).replace('S_array', 'A_array', 1)
+        cl = [('objs', '__CPROVER_requires(__CPROVER_rw_ok($0, %d) && __CPROVER_r_ok($1, %d) && g_w < %d)' % (8 * n, 8 * n, n)),
+              ('every_element_copied_whole', '__CPROVER_ensures((uintptr_t)$0->_M_elems[g_w] == (uintptr_t)__CPROVER_old($1->_M_elems[g_w]))'),
+              ('frame', '__CPROVER_assigns(__CPROVER_object_whole($0))')]
+        h = ('  struct %s to, from; unsigned long in_w; g_w = in_w; __CPROVER_assume(in_w < %d); uintptr_t in_from = (uintptr_t)from._M_elems[in_w];\n'
+             '  $ROOT(&to, &from, (const void *)0, (void *)0);\n' % (AT, n))
+        params = 'std::array<int*, %d>& to, const std::array<int*, %d>& from' % (n, n)
+    return Inst('c04_same_representation_copy_%s' % ('scalar' if n == 0 else 'array_%d' % n), params,
+                'detail::convert_type_non_class<vsbx, detail::adjust_type_direction::NO_CHANGE, detail::adjust_type_context::EXAMPLE>(to, from, nullptr, nullptr);',
+                cl, h, leaves=['dynamic_check'], prop=PROP, root_name='convert_type_non_class', tier=tier, pre=PRE_GHOST + ' unsigned long g_w;\n',
+                note='pointer representation == host pointer (no-op / dylib ABI): NO_CHANGE arms of the dispatcher')
+
+
 def units(tier):
     insts = entry_points(tier) + lemmas(tier) + cell_ops(tier) + [free_inst(tier), free_overload_inst('opaque', tier), free_overload_inst('cell', tier), finder_inst(tier)] + [ptr_array_inst(n, tier) for n in ([4] if tier == 'quick' else [1, 4, 16, 64])]
+    insts += [same_repr_copy_inst(0, tier), same_repr_copy_inst(3, tier)]
     # the no-context paths find the sandbox through the live registry: its exactness under create/destroy in any order
     # (contracts of C14) is what makes "relative to that sandbox and never relative to another" hold across histories
     from . import C14
